@@ -131,3 +131,29 @@ Qed.
 
 Lemma wrap_s32_id z : -2147483648 <= z < 2147483648 -> wrap_s32 z = z.
 Proof. intros H. unfold wrap_s32. rewrite Z.mod_small by lia. lia. Qed.
+
+(* ---- number parsing for CGREEN_PER_TEST_TIMEOUT (src/runner.c) ---- *)
+Definition c_isspace (c : N) : bool := (N.eqb c 32) || ((N.leb 9 c) && (N.leb c 13)).
+Definition c_isdigit (c : N) : bool := (N.leb 48 c) && (N.leb c 57).
+Fixpoint skip_spaces (s : list N) : list N := match s with c :: r => if c_isspace c then skip_spaces r else s | [] => [] end.
+Fixpoint digits_val (s : list N) (acc : Z) (n : nat) : Z * nat * list N :=      (* value, digits read, rest *)
+  match s with
+  | c :: r => if c_isdigit c then digits_val r (acc * 10 + (Z.of_N c - 48)) (S n) else (acc, n, s)
+  | [] => (acc, n, [])
+  end.
+Definition signed_prefix (s : list N) : Z * nat * list N :=
+  match skip_spaces s with
+  | 45 :: r => match digits_val r 0 0 with (v, n, rest) => (- v, n, rest) end
+  | 43 :: r => digits_val r 0 0
+  | r => digits_val r 0 0
+  end%N.
+(* atoi(): value of the longest blanks-sign-digits prefix, 0 if there are no digits (within int) *)
+Definition atoi_m (s : list N) : Z := match signed_prefix s with (v, _, _) => wrap_s32 v end.
+(* strtol() with the checks "some digits, nothing after them, fits an int"; anything else is 0 *)
+Definition strtol_full_m (s : list N) : Z :=
+  match signed_prefix s with
+  | (v, n, rest) => match n, rest with
+                    | S _, [] => if (Z.leb (-2147483648) v) && (Z.leb v 2147483647) then v else 0
+                    | _, _ => 0
+                    end
+  end.
